@@ -20,8 +20,8 @@ func init() { register("C16", "other", runC16) }
 type viewChecker struct {
 	p *core.Program
 	// retView[fn] = parameter index the function's slice result is always a view of (or -1)
-	retView map[*ssa.Function]int
-	busy    map[*ssa.Function]bool
+	retView    map[*ssa.Function]int
+	busy       map[*ssa.Function]bool
 	inProgress map[string]bool
 }
 
@@ -431,7 +431,9 @@ func loggingGuarded(b *ssa.BasicBlock) bool {
 		}
 		if call, ok := iff.Cond.(*ssa.Call); ok {
 			n := core.CalleeName(call)
-			if strings.HasSuffix(n, "fastlog.Logger).IsInfo") || strings.HasSuffix(n, "fastlog.Logger).IsDebug") {
+			// debug logging is off unless asked for; Info is the library's default level, so a line logged under
+			// IsInfo() on the tracked-host path runs (and allocates) in steady state
+			if strings.HasSuffix(n, "fastlog.Logger).IsDebug") {
 				return true
 			}
 		}
